@@ -99,7 +99,7 @@ func (z *Z) inl(in []Inline) string {
 			case 0:
 				sb.WriteString("[" + txt + "](" + sp(z.s.Intn(2)) + z.destTitle(v.Dest, v.Title) + sp(z.s.Intn(2)) + ")")
 			case 1:
-				sb.WriteString("[" + txt + "][" + z.labelVariant(v.Label, true, false) + "]")
+				sb.WriteString("[" + txt + "][" + z.labelVariant(v.Label, true, v.LabelNL) + "]")
 				z.note("ref-full")
 			case 2:
 				sb.WriteString("[" + txt + "][]")
